@@ -26,7 +26,7 @@ PROPS = {
             "mc": ["MC_Faults"]},
     "C04": {"families": ["validate"],
             "nontrivial_rule": "a ValidateToken / ValidateTokenOrDemote call returned",
-            "mc": ["MC_Validate"]},
+            "mc": ["MC_Faults"]},
     "C05": {"families": ["core", "prio", "faults"],
             "nontrivial_rule": "two or more successful acquisitions (terms) in the trace",
             "mc": ["MC_Core2", "MC_Prio"]},
@@ -47,13 +47,13 @@ PROPS = {
             "mc": ["MC_Prio"]},
     "C11": {"families": ["conn"],
             "nontrivial_rule": "a disconnect notification reaches a leader",
-            "mc": ["MC_Conn"]},
+            "mc": ["MC_Core2"]},
     "C12": {"families": ["health"],
             "nontrivial_rule": "at least one unhealthy result on a leader's heartbeat tick",
             "mc": ["MC_Health"]},
     "C13": {"families": ["validate", "faults"],
             "nontrivial_rule": "an outside write or delete of the record happens while instances run",
-            "mc": ["MC_Validate"]},
+            "mc": ["MC_Faults"]},
     "C18": {"families": ["core", "stop", "faults", "prio"],
             "nontrivial_rule": "snapshots of at least one leader and one non-leader state",
             "mc": ["MC_Core2"]},
@@ -108,20 +108,20 @@ def model_check(pid, tier, tlc, work, spec, log):
     for p in sorted(glob.glob(os.path.join(spec, "*"))):
         h.update(open(p, "rb").read())
     sh = h.hexdigest()[:16]
+    cfgs = []
     for name in PROPS[pid].get("mc", []):
-        cfg = "%s_%s.cfg" % (name, tier)
-        if not os.path.exists(os.path.join(spec, cfg)):
-            cfg = name + ".cfg"
-        if not os.path.exists(os.path.join(spec, cfg)):
-            continue
+        found = sorted(glob.glob(os.path.join(spec, "%s_%s*.cfg" % (name, tier))))
+        cfgs += [os.path.basename(f) for f in found]
+    for cfg in cfgs:
+        name = cfg[:-4]
         cache = os.path.join(work, "mc", "%s-%s.json" % (sh, cfg))
         if os.path.exists(cache):
             st = json.load(open(cache))
         else:
             t0 = time.time()
             mod = open(os.path.join(spec, cfg)).readline().strip().lstrip("\\* ").strip()
-            module = mod if mod.endswith(".tla") else name + ".tla"
-            out, st = tlc(module, cfg, workers="auto", timeout=3000 if tier != "quick" else 600)
+            module = mod if mod.endswith(".tla") else "MC.tla"
+            out, st = tlc(module, cfg, workers="auto", timeout=3000 if tier != "quick" else 900, heap="-Xmx24g")
             st["wall_s"] = round(time.time() - t0, 1)
             st["cfg"] = cfg
             if not st.get("ok"):
@@ -138,7 +138,6 @@ def model_check(pid, tier, tlc, work, spec, log):
     return res
 
 
-SPECIAL = {}
 
 LEVEL_TEXT = ("Model checking with conformance: the property is an operator of Props.tla; TLC checks it exhaustively on the "
               "Election.tla model for small constants (design level), and every schedule of the scenario families is executed on "
@@ -147,5 +146,7 @@ LEVEL_TEXT = ("Model checking with conformance: the property is an operator of P
 LEVEL_NOTE = ("trusted: TLC, the Go runtime's synctest bubble, the harness' reference store (its NATS fidelity is itself checked by C14), "
               "the trace being complete (every store operation, metrics callback and user callback passes through the harness); "
               "bounded: scenario families and model constants are finite samples of the quantifier")
-SPECIAL_INFO = {}
+import special  # noqa: E402
+SPECIAL = special.SPECIAL
+SPECIAL_INFO = special.SPECIAL_INFO
 NOT_YET = {}
